@@ -7,33 +7,57 @@ MANIFEST = {
             "arrivals incl. duplicates, retransmissions, sessions leaving and re-entering ESTABLISHED, failures): con_active_eq_inflight, "
             "inflight_le_nstart (wf_step: inductive invariant), held_fifo_exactly_once (the delay queue only changes by append-at-end "
             "without transmission, head-leaves-exactly-when-transmitted, or clear-with-one-NACK-per-held-CON; lifted to runs), "
-            "failure_nacks_each_held_once, non_not_delayed_by_nstart.  M is tied to the compiled code on every run by exact trace equality "
-            "on the virtual-time simulation harness (first-transmission order, con_active / delay-queue / send-queue after every event, "
-            "NACK log) over bursts of 1..20 CON/NON, NSTART 1..4, lost/duplicated/late ACK and RST.",
+            "no_idle_hold (an established session holds a message only if it is a CON and exactly NSTART CONs are in flight: whatever "
+            "ends an exchange re-opens the gate in the same event), failure_nacks_each_held_once, non_not_delayed_by_nstart.  The same "
+            "theorems (…_x) over the extended model MsgLayerX for every sequence of base AND extended events: requests with explicit "
+            "tokens and coap_cancel_all_messages transcribed as the pointer walk it is (one separate response cancelling several "
+            "Confirmables frees one slot each), an ICMP error read from the socket (icmp_changes_only_output: the in-flight CONs stay "
+            "counted), keepalive (ping loop of coap_io_prepare_io_lkd, coap_session_send_ping_lkd, last_rx_tx/last_ping_mid, the clamp "
+            "of the retransmission delay, the is_ping_rst case of the RST branch: a ping takes and frees a slot like any CON); "
+            "x_agrees_with_base.  M is tied to the compiled code on every run by exact trace equality on the virtual-time simulation "
+            "harness (first-transmission order, con_active / delay-queue / send-queue after every event, NACK log) over bursts of 1..20 "
+            "CON/NON, NSTART 1..4, lost/duplicated/late ACK and RST, shared tokens + separate responses, ICMP errors, keepalive 1..10 s "
+            "with pong / ACK / loss; the property's clauses are also judged on the implementation's trace alone.",
     "note": "Trusted: Lean kernel (+ propext, Classical.choice, Quot.sound), harness/sim_core.h + msg.c, Driver/Msg.lean, generators/oracles, "
             "the hand transcription M (checked on the cases run only).  NSTART <= 255 (con_active is a uint8_t).  'Not established' is "
-            "produced on UDP sessions by setting session->state as a DTLS handshake would.  The double NACK of the first IN-FLIGHT message "
-            "on disconnect (DESIGN §5 row 22) is modelled as is: the property's failure clause concerns held messages.",
+            "produced on UDP sessions by setting session->state as a DTLS session would.  The double NACK of the first IN-FLIGHT message "
+            "on disconnect (DESIGN §5 row 22) is modelled as is: the property's failure clause concerns held messages.  Not modelled: the "
+            "RFC 8974 extended-token probe (the other library-generated Confirmable whose RST takes the is_ext_token_rst path), keepalive "
+            "longer than ACK_TIMEOUT is not generated (the wait returned after a ping ignores the ping's own deadline: C06 territory).",
     "design_ref": "DESIGN.md §4 C08, design/C08.md",
 }
 LEAN_MODULES = ["CoapVerif.Props.C08"]
 NAMESPACE = "Coap.C08"
 REQUIRED_THEOREMS = ["wf_step", "con_active_eq_inflight", "inflight_le_nstart", "non_not_delayed_by_nstart",
                      "drain_fifo_exactly_once", "submit_held_appends", "held_fifo_exactly_once", "held_fifo_exactly_once_run",
-                     "failure_nacks_each_held_once"]
+                     "failure_nacks_each_held_once",
+                     # extended model (explicit tokens + cancel walk, ICMP error, keepalive)
+                     "wf_step_x", "con_active_eq_inflight_x", "inflight_le_nstart_x", "non_not_delayed_by_nstart_x",
+                     "held_fifo_exactly_once_x", "held_fifo_exactly_once_x_run", "icmp_changes_only_output",
+                     "x_agrees_with_base", "submitT_mid_is_submit",
+                     # "later transmitted as earlier exchanges finish"
+                     "no_idle_hold", "no_idle_hold_x"]
 RULE = ("scenario lines for harness/msg.c: bursts of 1..20 CON/NON on 1-3 UDP client sessions of one context, NSTART 1..4, "
         "scripted peer answering each transmission by ACK / RST / nothing, once or twice, after delays placed around the "
         "retransmission timers; stray and duplicated ACK/RST, NON with colliding ids, replies with invalid codes, "
-        "cancel-by-token; sessions taken out of ESTABLISHED and brought up again, session failure; the corpus of minimal "
-        "defect witnesses; non-trivial = distinct line on which at least one message was held in the delay queue")
+        "cancel-by-token; sessions taken out of ESTABLISHED and brought up again, session failure; lines with the extended events: "
+        "1..12 submissions sharing 1..3 tokens + separate (NON) responses carrying them, ICMP errors read from the socket, keepalive "
+        "1..10 s (<= ACK_TIMEOUT) switched on/off with silent periods around the ping time and pong (RST) / ACK / loss as fates, and "
+        "mixtures; the corpus of minimal defect witnesses; non-trivial = distinct line on which at least one message was held in "
+        "the delay queue")
 TRUSTED_BASE = ["Lean 4.33 kernel; axioms allowed: propext, Classical.choice, Quot.sound (audited per theorem each run)",
                 "harness/sim_core.h + harness/msg.c, the scenario interpreter in Driver/Msg.lean, generators and oracles in vlib/msglib.py",
-                "M (Model/MsgLayer.lean over Model/SendQueue.lean) is a hand transcription of coap_send_pdu's gate, "
-                "coap_session_delay_pdu, coap_session_connected, coap_session_disconnected_lkd and every con_active update; "
-                "checked against the compiled code by exact trace equality incl. con_active and queue contents after every event"]
+                "M (Model/MsgLayer.lean + Model/MsgLayerX.lean over Model/SendQueue.lean) is a hand transcription of coap_send_pdu's gate, "
+                "coap_session_delay_pdu, coap_session_connected, coap_session_disconnected_lkd (both reasons), coap_cancel_all_messages, "
+                "the keepalive loop, coap_session_send_ping_lkd, the RST branch incl. is_ping_rst and every con_active update; "
+                "checked against the compiled code by exact trace equality incl. con_active and queue contents after every event",
+                "last_rx_tx is stamped in M after each step for every session that transmitted in it (the C code stamps it inside "
+                "coap_netif_dgrm_write); the index arithmetic by which M follows the pointer p of coap_cancel_all_messages across "
+                "insertions (cancelWalk) is an emulation of pointer identity, tied to the code on the cases run"]
 ASSUMPTIONS = ["NSTART <= 255 (con_active is a uint8_t)", "UDP client sessions; 'not established' is produced by setting "
                "session->state as a (D)TLS handshake would, 'comes up' by coap_session_connected(), 'fails' by "
-               "coap_session_disconnected(NOT_DELIVERABLE)",
+               "coap_session_disconnected(NOT_DELIVERABLE); an ICMP error is a real read of -2 from the (wrapped) socket; "
+               "keepalive <= ACK_TIMEOUT; message ids chosen by the application stay clear of the library's ping ids",
                "compiled Lean definitions agree with the kernel's reading of them"]
 SPEC_DECISIONS = ["D14 an outcome NACK carries the sent PDU", "D15 a NON submitted before the session is established keeps its place "
                   "in the submission order; 'not delayed by NSTART' is about established sessions"]
@@ -63,6 +87,8 @@ def generate(ctx, escalate=False):
         n *= 3
     out = bursts(rng)
     out += [L.gen_scenario(rng, "c08") for _ in range(n)]
+    # extended events: shared tokens cancelled by one separate response, ICMP errors, keepalive pings (and mixtures)
+    out += [L.gen_scenario_x(rng) for _ in range(n // 2)]
     return out
 
 
@@ -90,6 +116,12 @@ def classify(c):
         k += ":hold"
     if " f:" in c["input"]:
         k += ":fail"
+    if " S:" in c["input"]:
+        k += ":tok"
+    if " i:" in c["input"]:
+        k += ":icmp"
+    if " k:" in c["input"]:
+        k += ":ka"
     return k
 
 
@@ -104,6 +136,7 @@ def search(ctx, tie_breaks, proof):
                 del evs[rng.randrange(len(evs) - 1)]
             out.append(" ".join(w[:3] + evs))
     out += [L.gen_scenario(rng, "c08") for _ in range(3000)]
+    out += [L.gen_scenario_x(rng) for _ in range(1500)]
     return out
 
 
